@@ -329,3 +329,30 @@ func bigRequest(method string) M {
 		[][]float64{{1, 4, 2, 3, 0.5}, {3, 1, 2.5, 1, 2}, {2, 2, 0.5, 2, 3}, {2.5, 3, 1, 0.5, 1}, {0.5, 2.5, 3, 2, 1.5}, {3, 3.5, 1.5, 1, 2.5}},
 		[]string{"f", "b", "d", "a"}, []float64{1, 2, 3, 1.5, 2.5})
 }
+
+// tinyVariant scales criterion c3 of every known alternative to the 1e-9 range (observed range only a few 1e-9 wide).
+func tinyVariant(root M) M {
+	r := asM(deepCopy(root))
+	for _, a := range asL(r["knownAlternatives"]) {
+		cm := asM(asM(a)["criteria"])
+		cm["c3"] = asF(cm["c3"]) * 1e-9
+	}
+	for _, c := range asL(r["criteria"]) {
+		if asS(asM(c)["id"]) == "c3" {
+			delete(asM(c), "valuesRange")
+		}
+	}
+	return M(r)
+}
+
+// nearScale: equal up to 1e-12 of the magnitude of the operands involved (not of the result, which may cancel).
+func nearScale(a, b, scale float64) bool {
+	if scale < 0 {
+		scale = -scale
+	}
+	d := a - b
+	if d < 0 {
+		d = -d
+	}
+	return d <= 1e-12*scale+1e-300
+}
